@@ -39,33 +39,33 @@ type c17Item struct {
 }
 
 type c17Case struct {
-	ID    int      `json:"id"`
-	Seed  int64    `json:"seed"`
-	Kind  string   `json:"kind"` // tree sub search
-	Tree  []c17Cmd `json:"tree,omitempty"`
-	Args  [][]int  `json:"args,omitempty"`
-	Env   []string `json:"env,omitempty"`
-	Exit  int      `json:"exit"`
-	Panic bool     `json:"panic"`
-	Stdout []int   `json:"stdout,omitempty"`
-	Stderr string  `json:"stderr_tail,omitempty"`
+	ID     int      `json:"id"`
+	Seed   int64    `json:"seed"`
+	Kind   string   `json:"kind"` // tree sub search
+	Tree   []c17Cmd `json:"tree,omitempty"`
+	Args   [][]int  `json:"args,omitempty"`
+	Env    []string `json:"env,omitempty"`
+	Exit   int      `json:"exit"`
+	Panic  bool     `json:"panic"`
+	Stdout []int    `json:"stdout,omitempty"`
+	Stderr string   `json:"stderr_tail,omitempty"`
 	// search runs
-	DB        []eCmd    `json:"db,omitempty"`
-	Query     []int     `json:"q,omitempty"`
-	Format    string    `json:"format,omitempty"`
-	Verbose   bool      `json:"verbose"`
-	NoColor   bool      `json:"no_color"`
-	Accepted  bool      `json:"accepted"`
-	Clean     []int     `json:"clean,omitempty"`
-	Limit     int       `json:"limit"`
-	LimitOK   bool      `json:"limit_ok"`
-	Engine    []c17Item `json:"engine"`
-	Recovery  []c17Item `json:"recovery"`
-	HistBefore int      `json:"hist_before"`
-	HistAfter  int      `json:"hist_after"`
-	HistLast   []int    `json:"hist_last"`
-	HistLastN  int      `json:"hist_last_n"`
-	DBHasESC   bool     `json:"db_has_esc"`
+	DB         []eCmd    `json:"db,omitempty"`
+	Query      []int     `json:"q,omitempty"`
+	Format     string    `json:"format,omitempty"`
+	Verbose    bool      `json:"verbose"`
+	NoColor    bool      `json:"no_color"`
+	Accepted   bool      `json:"accepted"`
+	Clean      []int     `json:"clean,omitempty"`
+	Limit      int       `json:"limit"`
+	LimitOK    bool      `json:"limit_ok"`
+	Engine     []c17Item `json:"engine"`
+	Recovery   []c17Item `json:"recovery"`
+	HistBefore int       `json:"hist_before"`
+	HistAfter  int       `json:"hist_after"`
+	HistLast   []int     `json:"hist_last"`
+	HistLastN  int       `json:"hist_last_n"`
+	DBHasESC   bool      `json:"db_has_esc"`
 }
 
 func c17Tree() c17Case {
